@@ -312,6 +312,61 @@ impl TypeDef {
     }
 }
 
+pub fn collect_users(t: &TyExpr, out: &mut std::collections::BTreeSet<usize>) {
+    use TyExpr::*;
+    match t {
+        User(i, args) => {
+            out.insert(*i);
+            args.iter().for_each(|a| collect_users(a, out));
+        }
+        Option(x) | Vec(x) | Array(x, _) | Wrap(_, x) => collect_users(x, out),
+        Tuple(xs) => xs.iter().for_each(|a| collect_users(a, out)),
+        Map(k, v, _) => {
+            collect_users(k, out);
+            collect_users(v, out);
+        }
+        Lib(_, args) => args.iter().for_each(|a| collect_users(a, out)),
+        _ => (),
+    }
+}
+
+/// the definitions whose names can appear in the declaration of `d`: everything its fields,
+/// parameter defaults and `concrete` types mention, and - through inlined or flattened fields -
+/// what those definitions mention
+pub fn inline_closure(types: &[TypeDef], d: usize) -> std::collections::BTreeSet<usize> {
+    let mut out = std::collections::BTreeSet::new();
+    let mut seen = std::collections::BTreeSet::new();
+    let mut todo = vec![d];
+    while let Some(i) = todo.pop() {
+        if !seen.insert(i) {
+            continue;
+        }
+        let td = &types[i];
+        let mut direct = std::collections::BTreeSet::new();
+        for p in &td.params {
+            if let Some(x) = &p.default {
+                collect_users(x, &mut direct);
+            }
+            if let Some(x) = &p.concrete {
+                collect_users(x, &mut direct);
+            }
+        }
+        for f in td.all_fields() {
+            let mut here = std::collections::BTreeSet::new();
+            collect_users(&f.ty, &mut here);
+            if let Some(a) = &f.as_type {
+                collect_users(a, &mut here);
+            }
+            if f.inline || f.flatten {
+                todo.extend(here.iter().copied());
+            }
+            direct.extend(here);
+        }
+        out.extend(direct);
+    }
+    out
+}
+
 #[derive(Clone, Debug, PartialEq, Eq, Hash, serde::Serialize, serde::Deserialize)]
 pub struct Module {
     pub name: String,
@@ -330,9 +385,37 @@ impl Module {
     /// structural feature labels, for the evidence histogram and the non-triviality rules
     pub fn labels(&self) -> Vec<String> {
         let mut out = std::collections::BTreeSet::new();
-        for td in &self.types {
+        for (i, td) in self.types.iter().enumerate() {
+            for (j, o) in self.types.iter().enumerate() {
+                if i == j {
+                    continue;
+                }
+                let (a, b) = (td.ts_name(), o.ts_name());
+                if a == b {
+                    out.insert("two_types_one_ts_name".to_string());
+                } else if b.starts_with(&a) && td.expected_path() == o.expected_path() {
+                    out.insert("name_extends_name_in_same_file".to_string());
+                }
+                let (pa, pb) = (td.expected_path(), o.expected_path());
+                if pa != pb && pa.rsplit('/').next() == pb.rsplit('/').next() {
+                    out.insert("same_file_name_in_two_directories".to_string());
+                }
+            }
             if td.is_generic() {
                 out.insert("generic".to_string());
+            }
+            let nconc = td.params.iter().filter(|p| p.concrete.is_some()).count();
+            if nconc >= 1 {
+                out.insert("concrete".to_string());
+            }
+            if nconc >= 2 {
+                out.insert(if td.ident.len() % 3 != 0 { "concrete_split_over_two_attributes" } else { "concrete_two_in_one_list" }.to_string());
+            }
+            if td.params.iter().any(|p| p.concrete.is_some() && p.default.is_some()) {
+                out.insert("concrete_and_default_on_one_parameter".to_string());
+            }
+            if !td.consts.is_empty() && td.const_default && !td.const_first {
+                out.insert("const_default_instantiated_elsewhere".to_string());
             }
             if td.params.iter().any(|p| p.default.is_some()) {
                 out.insert("param_default".into());
